@@ -1,4 +1,5 @@
 import CoapVerif.Model.WkBlock
+import CoapVerif.Model.WkLive
 /- Line-protocol driver for C20 (/.well-known/core).
 
    wk <table> <filter> <windows>     M: coap_print_wellknown_lkd per window | S: window of the listing
@@ -7,6 +8,14 @@ import CoapVerif.Model.WkBlock
    getx <table> <szx> <xfers>:<order>  interleaved transfers, see `getxStep`
    get <table> <queries> <szx>       M: body for the filter the GET handler takes, number of Block2 responses | S: listing, number
                                      <queries>: `N`/`-` none, else `+`-separated Uri-Query option values (hex, `-` = empty value)
+
+   wklive <events>                   a live server, see `wkliveStep`: `/`-separated events on ONE context, in order
+                                     `+<path>:<flags>:<attrs>` / `!<path>`   coap_add_resource / coap_delete_resource (as in <table>)
+                                     `a<path>:<own 0|4>:<name>[=<value>]`    coap_add_attr on the resource registered for <path>
+                                     `o<path>:<0|1>`                         coap_resource_set_get_observable on that resource
+                                     `g<sid><szx>:<queries>`                 complete block-wise GET (one digit each; queries as for `get`)
+                                     `p<filter>`                             coap_print_wellknown: size probe + full print
+                                     output: one `<body hex|bad>:<responses>` per g/p event, `,`-joined (`.` if none)
 
    <table>   `-` or `,`-separated entries  `+<path>:<flags>:<attrs>`  (register)  /  `!<path>` (unregister)
              flags: 1 observable, 2 OSCORE only, 4 strings are caller-owned exact-size objects (harness only)
@@ -21,6 +30,7 @@ import CoapVerif.Model.WkBlock
 -- DRIVER-OPS: body => Coap.Driver.LinkFormat.bodyStep
 -- DRIVER-OPS: get => Coap.Driver.LinkFormat.getStep
 -- DRIVER-OPS: getx => Coap.Driver.LinkFormat.getxStep
+-- DRIVER-OPS: wklive => Coap.Driver.LinkFormat.wkliveStep
 namespace Coap.Driver.LinkFormat
 open Coap Coap.LF Coap.M.LF
 
@@ -178,6 +188,64 @@ def getxStep (args : List String) : String :=
             hexOrDash l ++ ":" ++ toString (nblocks l.length sz))
       | _, _ => "bad-op"
     | _, _, _ => "bad-op"
+  | _ => "bad-op"
+
+/-- one event of a `wklive` line -/
+def parseEv (e : String) : Option LiveEv :=
+  let rest := (e.drop 1).toString
+  if e.startsWith "+" then
+    match rest.splitOn ":" with
+    | [p, f, a] => do
+      let p ← bytesOfHex p
+      let f ← f.toNat?
+      let a ← parseAttrs a
+      pure (.op (.reg (mkResource p f a)))
+    | _ => none
+  else if e.startsWith "!" then do
+    let p ← bytesOfHex rest
+    pure (.op (.unreg p))
+  else if e.startsWith "a" then
+    match rest.splitOn ":" with
+    | [p, _, a] => do
+      let p ← bytesOfHex p
+      let a ← parseAttr a
+      pure (.op (.attr p a))
+    | _ => none
+  else if e.startsWith "o" then
+    match rest.splitOn ":" with
+    | [p, b] => do
+      let p ← bytesOfHex p
+      let b ← b.toNat?
+      pure (.op (.obs p (b != 0)))
+    | _ => none
+  else if e.startsWith "g" then
+    match rest.splitOn ":" with
+    | [ds, q] =>
+      match ds.toList with
+      | [sid, szx] =>
+        if '0' ≤ sid ∧ sid ≤ '3' ∧ '0' ≤ szx ∧ szx ≤ '6' then do
+          let o ← parseOpts q
+          pure (.get (sid.toNat - 48) (szx.toNat - 48) o)
+        else none
+      | _ => none
+    | _ => none
+  else if e.startsWith "p" then do
+    let qf ← parseFilterArg rest
+    pure (.print qf)
+  else none
+
+def showLive (rs : List LiveRes) : String :=
+  if rs.isEmpty then "." else
+  String.intercalate "," (rs.map fun r => (if r.failed then "bad" else hexOrDash r.buf) ++ ":" ++ toString r.nresp)
+
+/-- `wklive <events>`: M: `liveRun` (the GET handler on the table as it is + the Block2 response cache, the client of the
+harness gives up after 5001 blocks) | S: `liveSpec` (the listing of the table as it is when the request arrives) -/
+def wkliveStep (args : List String) : String :=
+  match args with
+  | [evs] =>
+    match (evs.splitOn "/").mapM parseEv with
+    | some evs => "M " ++ showLive (liveRun 5001 LState.init evs) ++ " | S " ++ showLive (liveSpec [] evs)
+    | none => "bad-op"
   | _ => "bad-op"
 
 end Coap.Driver.LinkFormat
